@@ -342,7 +342,7 @@ def evaluate_cfi_directives(
                             state.initial.registers[register]
                         )
                     else:
-                        state.current.registers.pop(register)
+                        state.current.registers.pop(register, None)
                 elif name == ".cfi_val_offset":
                     register, offset = args
                     state.current.registers[register] = RegValOffset(offset)
